@@ -212,7 +212,8 @@ def _parse_directive_options(
             options_block = content
             content = ""
         options_block = dedent(options_block)
-    elif content.lstrip().startswith(":"):
+    elif _split_lines(content)[:1] and _split_lines(content)[0].lstrip().startswith(":"):
+        # (only the first content line decides: a ``:`` line after a blank line is body text)
         content_lines = _split_lines(content)
         yaml_lines = []
         while content_lines:
